@@ -1513,9 +1513,14 @@ struct TemplateCore {
             }
 
             case QOperation::Remainder: { // %
-                left.Value.Number.Integer = (left % right);
-                left.Type                 = ExpressionType::IntegerNumber;
-                break;
+                if (right.RemainderDivisor() != 0) {
+                    left.Value.Number.Integer = (left % right);
+                    left.Type                 = ExpressionType::IntegerNumber;
+                    break;
+                }
+
+                // No value, like division by zero.
+                return false;
             }
 
             case QOperation::Multiplication: { // *
